@@ -3,12 +3,14 @@ package loader
 import (
 	"context"
 
+	"github.com/compose-spec/compose-go/v2/interpolation"
 	"github.com/compose-spec/compose-go/v2/types"
 )
 
 // tcLoad runs the real dict-level pipeline (interpolate, extends, merge, validate,
 // canonical, defaults, normalize, path resolution) on pre-parsed documents.
 func tcLoad(env types.Mapping, opts func(*Options), docs ...map[string]any) (map[string]any, error) {
+	tcPrelude(docs)
 	var files []types.ConfigFile
 	names := []string{vrtRoot() + "/w/compose.yaml", vrtRoot() + "/w/override.yaml", vrtRoot() + "/w/third.yaml"}
 	for i, d := range docs {
@@ -37,4 +39,37 @@ func tcSvc(m map[string]any, name string) map[string]any {
 	}
 	x, _ := s[name].(map[string]any)
 	return x
+}
+
+// tcPrelude (harness parameter HISTORY=1): before the load under test the same process interpolates and loads
+// copies of the documents with other settings - no conversion table, another environment, other Skip* options.
+// A load depends on its own inputs only (C02), so every oracle of the harness applies unchanged.
+func tcPrelude(docs []map[string]any) {
+	if vrtParam("HISTORY", 0) != 1 {
+		return
+	}
+	for _, d := range docs {
+		interpolation.Interpolate(genCopy(d).(map[string]any), interpolation.Options{ //nolint:errcheck
+			LookupValue: func(k string) (string, bool) { return "1", true },
+		})
+	}
+	var files []types.ConfigFile
+	names := []string{vrtRoot() + "/w/compose.yaml", vrtRoot() + "/w/override.yaml", vrtRoot() + "/w/third.yaml"}
+	for i, d := range docs {
+		files = append(files, types.ConfigFile{Filename: names[i], Config: genCopy(d).(map[string]any)})
+	}
+	for round := 0; round < 2; round++ {
+		LoadWithContext(context.Background(), types.ConfigDetails{ //nolint:errcheck
+			WorkingDir:  vrtRoot() + "/w",
+			ConfigFiles: files,
+			Environment: types.Mapping{"E": "other", "V": "other", "TAG": "other", "A": "other", "X": "0"},
+		}, func(o *Options) {
+			o.SetProjectName("other", true)
+			if round == 1 {
+				o.SkipInterpolation = true
+				o.SkipConsistencyCheck = true
+				o.SkipResolveEnvironment = true
+			}
+		})
+	}
 }
